@@ -657,7 +657,11 @@ def call_native_method(it, recv, name, args, kwargs, pc):
             if isinstance(a, SymList):
                 real = to_real_seq(it, a)
                 if real is None:
-                    if type(recv) is not str:
+                    if all_present(it, a) and not any(I.has_special(e) for _, e in a.elems):
+                        # every element is there: plain concatenation over the alternatives
+                        items = [e for _, e in a.elems]
+                        return vc.lift(lambda s, *xs: s.join(xs), [recv] + items, pc, it.sink)
+                    if type(recv) is not str or recv == "":
                         raise Unsupported("symbolic separator join")
                     return SS.join(vc, recv, a)
                 args = [real]
